@@ -14,6 +14,7 @@ def dispatch (cmd : String) (j : Json) : Except String Json :=
   | "plain" => cmdPlain j
   | "local" => cmdLocal j
   | "wf" => cmdWf j
+  | "sort" => cmdSort j
   | _ => throw "bad-case"
 
 def handleLine (line : String) : String :=
